@@ -477,7 +477,7 @@ func init() {
 			if tier == "thorough" {
 				return 8000
 			}
-			return 700
+			return 2100
 		},
 		ChunkSize:   25,
 		Rule:        "each case strings 1-5 incidents on one client with an always-calling read loop that waits on ReadBackoff (ReconnectWaitMin 2 ms, Max 16 ms). Incident kinds place a failure relative to the read routine with hook parking and connection gates: another goroutine's request write (Publish, Subscribe, Ping) fails while the read routine is parked right before its acknowledgement flush, parked between saving and writing a PUBREL, blocked in Read, or after it flushed; the read routine meets a protocol violation while a writer is stuck inside Write holding the connection; EOF, reset, expiry inside a packet, a protocol violation; the broker falls silent inside the payload of a message beyond the read buffer that is being skipped (a retransmitted exactly-once duplicate, or one the application chose not to read); the acknowledgement's own write fails; 1-5 consecutive dial failures (plain errors, errors that wrap context.Canceled or DeadlineExceeded, net.ErrClosed, unexpected EOF: none means the Client was closed); a PUBLISH beyond the read buffer that is itself a protocol violation; 1-3 handshakes cut; refusals; resend failures with transfers pending. Oracle after each incident: the failed connection gets closed, the Dialer is invoked again, every request pending on that connection returns, Online is released and a Ping succeeds; 'does not happen' is decided structurally (no event and identical goroutine stacks for the stability window) with the dump as witness. ReadBackoff: non-nil for every error but ErrClosed, idle duration (seen through verifNote) inside [Min, Max], equal to Max after refusals and to the documented doubling otherwise, channel never closed earlier than that duration. Non-trivial: every incident; distinct by incident kind sequence.",
